@@ -439,7 +439,9 @@ def generate(src, strip_comments, fn_body, header, repo):
     L.append("    assigned `args.password` unconditionally (no command-line password WIPES the file's) -/")
     L.append("def cliPasswordRule : String := %s" % lean_str(cli_rule))
     prs = strip_comments(src("config/parser.rs"))
-    file_ok = bool(re.search(r'"requirepass"\s*=>\s*\{\s*config\.network\.password\s*=\s*Some\(value\.to_string\(\)\);\s*\}', prs))
+    # the `requirepass` arm assigns the password from the line's value: verbatim, or its single redis.conf argument (which of the two: requirepassValue below)
+    file_ok = bool(re.search(r'"requirepass"\s*=>\s*\{\s*config\.network\.password\s*=\s*Some\(value\.to_string\(\)\);\s*\}', prs)) or \
+        bool(re.search(r'"requirepass"\s*=>\s*\{\s*let mut args = split_config_args\(value\).*?config\.network\.password\s*=\s*Some\(args\.remove\(0\)\);\s*\}', prs, re.S))
     mainrs = re.sub(r"\s+", " ", strip_comments(src("main.rs")))
     order_ok = bool(re.search(r"let mut config = if let Some\(ref config_path\) = cli_args\.config \{.*?Config::from_file\(config_path\).*?\} else \{ (?:config::)?Config::default\(\) \}; "
                               r"config\.apply_cli_args\(cli_args\);", mainrs))
@@ -457,15 +459,34 @@ def generate(src, strip_comments, fn_body, header, repo):
                       r"let parts: Vec<&str> = line\.splitn\(2, ' '\)\.collect\(\); if parts\.len\(\) != 2 \{ return Err\([^;]*\); \} "
                       r"let param = parts\[0\]\.trim\(\)\.to_lowercase\(\); let value = parts\[1\]\.trim\(\); "
                       r"apply_config_param\(&mut config, &param, value, line_num \+ 1\)\?; ")
+    fixed_loop = (r" let line = line_result\?; let line = if line_num == 0 \{ line\.trim_start_matches\('\\u\{feff\}'\) \} else \{ line\.as_str\(\) \}; "
+                  r"let line = line\.trim\(\); if line\.is_empty\(\) \|\| line\.starts_with\('#'\) \{ continue; \} "
+                  r"let \(param, value\) = match line\.split_once\(char::is_whitespace\) \{ Some\(\(param, value\)\) => \(param\.to_lowercase\(\), value\.trim\(\)\), "
+                  r"None => return Err\([^;]*\), \}; apply_config_param\(&mut config, &param, value, line_num \+ 1\)\?; ")
     if lm and re.fullmatch(canonical_loop, lm.group(1)):
         grammar = "rest-of-line-trimmed"
+    elif lm and re.fullmatch(fixed_loop, lm.group(1)):
+        grammar = "first-whitespace-bom"
     else:
         grammar = "unknown"
-        L.append("/-- the line loop of parse_config_file as found (not the modelled shape) -/")
+        L.append("/-- the line loop of parse_config_file as found (not a modelled shape) -/")
         L.append("def configLineLoopFound : String := %s" % lean_str(lm.group(1).strip()[:400] if lm else "line loop of parse_config_file not found"))
-    L.append("/-- a line of the configuration file: \"rest-of-line-trimmed\" = trim; skip if empty or first character `#`; split at the FIRST")
-    L.append("    blank into directive (trimmed, lower-cased) and value (the whole rest, trimmed — nothing is cut, unquoted or unescaped) -/")
+    L.append("/-- a line of the configuration file.  \"rest-of-line-trimmed\": trim; skip if empty or first character `#`; split at the FIRST BLANK")
+    L.append("    (`splitn(2, ' ')`) into directive (trimmed, lower-cased) and value (the whole rest, trimmed).  \"first-whitespace-bom\": a byte-order")
+    L.append("    mark in front of the first line is dropped and the directive ends at the first white space of ANY kind (`split_once(char::is_whitespace)`) -/")
     L.append("def configLineGrammar : String := %s" % lean_str(grammar))
+    arm = re.search(r'"requirepass"\s*=>\s*\{(.*?)\}\s*"protected-mode"', prs, re.S)
+    armt = re.sub(r"\s+", " ", arm.group(1)).strip() if arm else ""
+    if armt == "config.network.password = Some(value.to_string());":
+        rv = "verbatim"
+    elif re.fullmatch(r"let mut args = split_config_args\(value\) \.ok_or_else\(\|\| ConfigParseError::Value\([^;]*\)\)\?; if args\.len\(\) != 1 \{ return Err\([^;]*\); \} "
+                      r"config\.network\.password = Some\(args\.remove\(0\)\);", armt) and "fn split_config_args(value: &str) -> Option<Vec<String>>" in prs:
+        rv = "one-sdssplitargs-argument"
+    else:
+        rv = "unknown"
+    L.append("/-- the value of `requirepass`: \"verbatim\" = the rest of the line as it is (quotes and escapes stay in the password);")
+    L.append("    \"one-sdssplitargs-argument\" = exactly one argument in redis.conf syntax (quotes and escapes removed; anything else stops the start-up) -/")
+    L.append("def requirepassValue : String := %s" % lean_str(rv))
 
     L.append("/-- what this extraction could not read in the current source (each entry: table, reason); the tables concerned hold")
     L.append("    inert defaults and the driver predicts nothing while this list is non-empty -/")
